@@ -94,6 +94,9 @@ D(e, ctx, P, env) ==
       [] e.k = "slot_to_time" -> LET a == D(e.a, ctx, P, env) IN Guard(<<a>>, SlotToTime(a, env.cfg))
       [] e.k = "time_to_slot" -> LET a == D(e.a, ctx, P, env) IN Guard(<<a>>, TimeToSlot(a, env.cfg))
       [] e.k = "utxo_ref" -> [k |-> "utxo_refs", refs |-> <<[txid |-> e.txid, index |-> e.index]>>]
+      \* a literal whose output index is 2^32 + e.index: an output index has 32 bits in the IR and on chain, so there is no
+      \* reference this literal could denote (in particular not output e.index of the same transaction)
+      [] e.k = "utxo_ref_wide" -> Err("utxo ref output index out of range")
       [] e.k = "absent" -> None
       [] OTHER -> Unspec
 
